@@ -46,7 +46,8 @@ fn run(id: &str) -> i32 {
     let out = std::env::var("JET1090_VERIF_OUT").ok();
     let replay = std::env::var("JET1090_VERIF_REPLAY").ok();
     silence_panics();
-    let ctx = Ctx { tier, seed, threads };
+    let dim = apply_dim();
+    let ctx = Ctx { tier, seed, threads, dim };
     let rep = Report::new(id);
     if let Some(p) = replay {
         let text = std::fs::read_to_string(&p).expect("replay file");
